@@ -29,19 +29,77 @@ def str_table(prog, fn, ty_hint):
     return out, rest, None
 
 
+STR_EQ = r"PartialEq.*::eq$"
+
+
+def str_table_mir(prog, fn, ty_hint):
+    """The same table read off the MIR: a `match` on a string and an `if s == "a" {..} else if s == "b" {..}` chain both lower to
+    `<str as PartialEq>::eq(s, "lit")` tests; the variant built under the true edge of exactly one of them is that literal's value, and the
+    value built (or error returned) under the false edges of all of them is the catch-all.  Helpers split off the function are inlined."""
+    b = prog.bodies.get(fn)
+    out, rest = {}, []
+    if b is None:
+        return out, rest, None
+
+    def eq_lit(d):
+        if isinstance(d, tuple) and d and d[0] == "call" and core.re.search(STR_EQ, d[1]) and len(d[2]) == 2:
+            lits = [a[1] for a in d[2] if isinstance(a, tuple) and a[0] == "lit" and isinstance(a[1], str)]
+            if len(lits) == 1:
+                return lits[0]
+        return None
+    keys = set()
+    sites = []
+    for i, blk in enumerate(b.blocks):
+        for s in blk["stmts"]:
+            rv = s.get("rv")
+            if rv and rv.get("k") == "agg" and rv.get("agg") == "adt" and str(rv.get("adt", "")).endswith(ty_hint):
+                gs = core.guards_dominating(prog, b, i)
+                trues = [eq_lit(d) for s_, lab, d, info in gs if lab == "true" and eq_lit(d) is not None]
+                falses = [eq_lit(d) for s_, lab, d, info in gs if lab == "false" and eq_lit(d) is not None]
+                sites.append((rv["variant"], trues, falses))
+                keys.update(trues)
+    for variant, trues, falses in sites:
+        if len(trues) == 1:
+            if trues[0] in out and out[trues[0]] != variant:
+                out[trues[0]] = "<ambiguous>"
+            else:
+                out[trues[0]] = variant
+        elif not trues and keys and set(falses) >= keys:
+            rest.append(("path", variant))
+    # the catch-all: an Err built where every literal of the table compared unequal
+    for i, blk in enumerate(b.blocks):
+        for s in blk["stmts"]:
+            rv = s.get("rv")
+            if rv and rv.get("k") == "agg" and rv.get("agg") == "adt" and rv.get("adt", "").endswith("result::Result") and rv.get("variant") == "Err":
+                gs = core.guards_dominating(prog, b, i)
+                falses = set(eq_lit(d) for s_, lab, d, info in gs if lab == "false" and eq_lit(d) is not None)
+                trues = [eq_lit(d) for s_, lab, d, info in gs if lab == "true" and eq_lit(d) is not None and eq_lit(d) in keys]
+                if keys and falses >= keys and not trues:
+                    rest.append(("call", "Err", [describe(prog, b, rv["ops"][0])]))
+    return out, rest, b
+
+
 def enum_tables(chk, prog):
+    hir_table = str_table
+
+    def both(prog_, fn_, ty_):
+        mp_, rest_, m_ = hir_table(prog_, fn_, ty_)
+        if not mp_:
+            mp_, rest_, m_ = str_table_mir(prog_, fn_, ty_)
+        return mp_, rest_, m_
+    str_table_ = both
     fn = CFG + "Config::from_tree"
-    mp, rest, m = str_table(prog, fn, "BlacklistMode")
+    mp, rest, m = str_table_(prog, fn, "BlacklistMode")
     chk.ob("R1.tables", fn, "blacklist mode table == {block: Block, forbidden: Forbidden}", mp == {"block": "Block", "forbidden": "Forbidden"}, f"{mp}")
     chk.ob("R1.tables", fn, "any other blacklist mode is rejected", bool(rest) and all("Err" in str(r) for r in rest), f"{rest}")
     fn2 = CFG + "parse_route"
-    mp, rest, m = str_table(prog, fn2, "LoadBalancerMode")
+    mp, rest, m = str_table_(prog, fn2, "LoadBalancerMode")
     chk.ob("R1.tables", fn2, "load balancer mode table == {round-robin: RoundRobin, random: Random}", mp == {"round-robin": "RoundRobin", "random": "Random"}, f"{mp}")
     chk.ob("R1.tables", fn2, "any other load balancer mode is rejected", bool(rest) and all("Err" in str(r) for r in rest), f"{rest}")
     fs = prog.impl_fn(r"^<humphrey_server::server::logger::LogLevel as std::str::FromStr>$", "from_str")
     chk.floor("LogLevel::from_str", len(fs), 1)
     if fs:
-        mp, rest, m = str_table(prog, fs[0], "LogLevel")
+        mp, rest, m = str_table_(prog, fs[0], "LogLevel")
         chk.ob("R1.tables", fs[0], "log level names == {error, warn, info, debug}", mp == {"error": "Error", "warn": "Warn", "info": "Info", "debug": "Debug"}, f"{mp}")
         chk.ob("R1.tables", fs[0], "any other level is rejected", bool(rest) and all("Err" in str(r) for r in rest), f"{rest}")
     # size units
